@@ -43,7 +43,7 @@ func (c10) Batches(tier string, seed uint64) []core.Batch {
 	if tier == "thorough" {
 		b = append(b, spread("dpkg-source", 4, 12)...)
 	}
-	return b
+	return append(b, conc(tierN(tier, 40, 300), "packages", "sources", "best")...)
 }
 
 // every exported field of every typed struct must have been compared.
@@ -1369,6 +1369,9 @@ func (p c10) best(c *core.C, r *core.Rand) {
 }
 
 func (p c10) RunBatch(t *core.T, b core.Batch) {
+	if concDispatch(p, t, b) {
+		return
+	}
 	r := t.Rand(b.Name, fmt.Sprint(b.Arg))
 	for i := 0; i < b.N; i++ {
 		cs := c10Case{Kind: b.Name, Seed: r.U64(), Steer: r.SteerRest()}
